@@ -68,9 +68,10 @@ fn kvs_out(names: &Names, kvs: &[wc::KeyValuePair]) -> Value {
 }
 
 /// one API call of a task; returns the reply in the trace vocabulary (+ the transaction id the library chose)
-async fn call(wb: &wcl::Worterbuch, sh: &Arc<Shared>, item: &Value, subs: &mut Vec<u64>, lss: &mut Vec<u64>, last_cget: &mut u64) -> (Value, Option<u64>, Option<u64>) {
+async fn call(wb: &wcl::Worterbuch, sh: &Arc<Shared>, item: &Value, subs: &mut Vec<u64>, lss: &mut Vec<u64>, pubs: &mut Vec<u64>, last_cget: &mut u64) -> (Value, Option<u64>, Option<u64>) {
     let op = s(item, "op");
     let typed = b(item, "typed");
+    let ff = b(item, "ff");
     macro_rules! key {
         ($f:expr) => {{
             let mut n = sh.names.lock().await;
@@ -84,7 +85,68 @@ async fn call(wb: &wcl::Worterbuch, sh: &Arc<Shared>, item: &Value, subs: &mut V
         }};
     }
     let ok = json!({"t": "ok"});
+    if ff {
+        // fire-and-forget variants (`*_async`): the call returns the transaction id once the message is queued,
+        // the answer is not awaited; a round trip afterwards makes sure the request has been processed
+        let mut ver = None;
+        let r = match op.as_str() {
+            "set" => if typed { wb.set_async(key!("key"), val!()).await } else { wb.set_generic_async(key!("key"), val!()).await },
+            "cset" => {
+                let v = if item.get("ver_from").is_some() { *last_cget } else { u(item, "ver") };
+                ver = Some(v);
+                if typed { wb.cset_async(key!("key"), &val!(), v).await } else { wb.cset_generic_async(key!("key"), val!(), v).await }
+            }
+            "publish" => if typed { wb.publish_async(key!("key"), &val!()).await } else { wb.publish_generic_async(key!("key"), val!()).await },
+            "delete" => wb.delete_async(key!("key")).await,
+            "pdelete" => wb.pdelete_async(key!("pat"), b(item, "quiet")).await,
+            "lock" => wb.lock_async(key!("key")).await,
+            "release" => wb.release_lock_async(key!("key")).await,
+            "spub" => {
+                if pubs.is_empty() {
+                    return (json!({"t": "skip"}), None, None);
+                }
+                let tid = pubs[pubs.len() - 1 - (u(item, "ref") as usize % pubs.len())];
+                return match wb.spub_generic_async(tid, val!()).await {
+                    Ok(_) => {
+                        let _ = wb.ls(Some("__sync".to_owned())).await;
+                        (json!({"t": "async"}), Some(tid), None)
+                    }
+                    Err(e) => (conn_err(&e), Some(tid), None),
+                };
+            }
+            _ => return (json!({"t": "unknown"}), None, None),
+        };
+        return match r {
+            Ok(tid) => {
+                let _ = wb.ls(Some("__sync".to_owned())).await;
+                (json!({"t": "async"}), Some(tid), ver)
+            }
+            Err(e) => (conn_err(&e), None, ver),
+        };
+    }
     match op.as_str() {
+        // publish streams: spub_init hands out the transaction id later spub calls refer to
+        "spubinit" => match wb.spub_init(key!("key")).await {
+            Ok(tid) => {
+                pubs.push(tid);
+                (ok, Some(tid), None)
+            }
+            Err(e) => (conn_err(&e), None, None),
+        },
+        "spub" => {
+            if pubs.is_empty() {
+                return (json!({"t": "skip"}), None, None);
+            }
+            let tid = pubs[pubs.len() - 1 - (u(item, "ref") as usize % pubs.len())];
+            let r = if typed { wb.spub(tid, &val!()).await } else { wb.spub_generic(tid, val!()).await };
+            (match r { Ok(()) => ok, Err(e) => conn_err(&e) }, Some(tid), None)
+        }
+        // the library's helper for the client's own $SYS/clients/<id>/clientName entry
+        "set_name" => {
+            let v = val!();
+            let r = wb.set_client_name(v.as_str().unwrap_or("?")).await;
+            (match r { Ok(()) => ok, Err(e) => conn_err(&e) }, None, None)
+        }
         "get" => {
             let r = if typed { wb.get::<Value>(key!("key")).await } else { wb.get_generic(key!("key")).await };
             let n = sh.names.lock().await;
@@ -118,7 +180,11 @@ async fn call(wb: &wcl::Worterbuch, sh: &Arc<Shared>, item: &Value, subs: &mut V
             )
         }
         "pget" => {
-            let r = wb.pget_generic(key!("pat")).await;
+            let r = if typed {
+                wb.pget::<Value>(key!("pat")).await.map(|t| t.into_iter().map(|kv| wc::KeyValuePair { key: kv.key, value: kv.value }).collect::<Vec<_>>())
+            } else {
+                wb.pget_generic(key!("pat")).await
+            };
             let n = sh.names.lock().await;
             (match r { Ok(kvs) => json!({"t": "kvs", "kvs": kvs_out(&n, &kvs)}), Err(e) => conn_err(&e) }, None, None)
         }
@@ -128,7 +194,7 @@ async fn call(wb: &wcl::Worterbuch, sh: &Arc<Shared>, item: &Value, subs: &mut V
         }
         "cset" => {
             let ver = if item.get("ver_from").is_some() { *last_cget } else { u(item, "ver") };
-            let r = wb.cset_generic(key!("key"), val!(), ver).await;
+            let r = if typed { wb.cset(key!("key"), &val!(), ver).await } else { wb.cset_generic(key!("key"), val!(), ver).await };
             (match r { Ok(()) => ok, Err(e) => conn_err(&e) }, None, Some(ver))
         }
         "swap" => {
@@ -139,11 +205,11 @@ async fn call(wb: &wcl::Worterbuch, sh: &Arc<Shared>, item: &Value, subs: &mut V
             (match r { Ok(()) => ok, Err(e) => conn_err(&e) }, None, None)
         }
         "publish" => {
-            let r = wb.publish_generic(key!("key"), val!()).await;
+            let r = if typed { wb.publish(key!("key"), &val!()).await } else { wb.publish_generic(key!("key"), val!()).await };
             (match r { Ok(()) => ok, Err(e) => conn_err(&e) }, None, None)
         }
         "delete" => {
-            let r = wb.delete_generic(key!("key")).await;
+            let r = if typed { wb.delete::<Value>(key!("key")).await } else { wb.delete_generic(key!("key")).await };
             let n = sh.names.lock().await;
             (
                 match r {
@@ -156,7 +222,11 @@ async fn call(wb: &wcl::Worterbuch, sh: &Arc<Shared>, item: &Value, subs: &mut V
             )
         }
         "pdelete" => {
-            let r = wb.pdelete_generic(key!("pat"), false).await;
+            let r = if typed {
+                wb.pdelete::<Value>(key!("pat"), false).await.map(|t| t.into_iter().map(|kv| wc::KeyValuePair { key: kv.key, value: kv.value }).collect::<Vec<_>>())
+            } else {
+                wb.pdelete_generic(key!("pat"), false).await
+            };
             let n = sh.names.lock().await;
             (match r { Ok(kvs) => json!({"t": "kvs", "kvs": kvs_out(&n, &kvs)}), Err(e) => conn_err(&e) }, None, None)
         }
@@ -187,7 +257,8 @@ async fn call(wb: &wcl::Worterbuch, sh: &Arc<Shared>, item: &Value, subs: &mut V
             (match r { Ok(()) => ok, Err(e) => conn_err(&e) }, None, None)
         }
         "sub" => {
-            let r = wb.subscribe_generic(key!("key"), b(item, "unique"), b(item, "live")).await;
+            // (typed: the library deserialises every event in a task of its own before handing it over)
+            let r = if typed { wb.subscribe::<Value>(key!("key"), b(item, "unique"), b(item, "live")).await } else { wb.subscribe_generic(key!("key"), b(item, "unique"), b(item, "live")).await };
             match r {
                 Ok((mut rx, tid)) => {
                     subs.push(tid);
@@ -211,6 +282,29 @@ async fn call(wb: &wcl::Worterbuch, sh: &Arc<Shared>, item: &Value, subs: &mut V
             }
         }
         "psub" => {
+            if typed {
+                return match wb.psubscribe::<Value>(key!("pat"), b(item, "unique"), b(item, "live"), None).await {
+                    Ok((mut rx, tid)) => {
+                        subs.push(tid);
+                        sh.streams.lock().await.entry(tid).or_default();
+                        let sh2 = sh.clone();
+                        tokio::spawn(async move {
+                            while let Some(e) = rx.recv().await {
+                                let n = sh2.names.lock().await;
+                                let untyped = |k: Vec<wc::TypedKeyValuePair<Value>>| k.into_iter().map(|kv| wc::KeyValuePair { key: kv.key, value: kv.value }).collect::<Vec<_>>();
+                                let ev = match e {
+                                    wc::TypedPStateEvent::KeyValuePairs(k) => json!({"t": "val", "kvs": kvs_out(&n, &untyped(k))}),
+                                    wc::TypedPStateEvent::Deleted(k) => json!({"t": "del", "kvs": kvs_out(&n, &untyped(k))}),
+                                };
+                                drop(n);
+                                sh2.streams.lock().await.entry(tid).or_default().push(ev);
+                            }
+                        });
+                        (ok, Some(tid), None)
+                    }
+                    Err(e) => (conn_err(&e), None, None),
+                };
+            }
             let r = wb.psubscribe_generic(key!("pat"), b(item, "unique"), b(item, "live"), None).await;
             match r {
                 Ok((mut rx, tid)) => {
@@ -294,6 +388,7 @@ async fn run_task(
     let mut log: Vec<Value> = vec![];
     let mut subs: Vec<u64> = vec![];
     let mut lss: Vec<u64> = vec![];
+    let mut pubs: Vec<u64> = vec![];
     let mut last_cget = 0u64;
     for item in items {
         let op = s(&item, "op");
@@ -342,7 +437,19 @@ async fn run_task(
             continue;
         }
         rec["inv"] = json!(tick(&sh));
-        let (rep, tid, ver) = call(&wb, &sh, &item, &mut subs, &mut lss, &mut last_cget).await;
+        let (rep, tid, ver) = call(&wb, &sh, &item, &mut subs, &mut lss, &mut pubs, &mut last_cget).await;
+        if rep["t"] == "skip" {
+            continue;
+        }
+        rec.as_object_mut().map(|o| {
+            o.remove("ff");
+            o.remove("ref");
+        });
+        if op == "set_name" {
+            // on the wire: a set of the client's own clientName key
+            rec["op"] = json!("set");
+            rec["key"] = json!(["$SYS", "clients", "c1", "clientName"]);
+        }
         rec["ret"] = json!(tick(&sh));
         rec["rep"] = rep;
         rec["tid"] = json!(tid.unwrap_or(0));
